@@ -70,7 +70,7 @@ type c15Case struct {
 }
 
 const c15Rule = "case = 1..3 stop/start cycles of the real collector binary (each instance with all CPUs or its affinity restricted to 1, 2, 4 or 8; 2..8 workers per protocol; in about 3 of 4 cases a generated subset of the four protocols is switched off by configuration, at least one of IPFIX / NetFlow v9 stays on; rawSocket sink and restful stats owned by the harness, per-instance pid and cache files (in a quarter of the cases given as relative names with a working directory other than the configuration's), in a quarter of the cases on a file system other than the temporary directory's) with 1..8 exporters on 127.0.0.x and ::1: " +
-	"per cycle new IPFIX / NetFlow v9 templates are announced (or all known ones redefined with a shorter definition, so that the next cache file is shorter than the one it replaces) and acknowledged (a data message using them reached the sink), sFlow/NetFlow v5 noise, a data burst, then SIGTERM or SIGINT after a drawn delay (in 5 of 8 cycles sent once, otherwise repeated 1..1100 ms later), " +
+	"per cycle new IPFIX / NetFlow v9 templates are announced (or all known ones redefined with a shorter definition, so that the next cache file is shorter than the one it replaces; or, in a quarter of the later cycles, a quiet life: nothing new, one known template re-announced with a single specifier changed — a scope field if it has any) and acknowledged (a data message using them reached the sink), sFlow/NetFlow v5 noise, a data burst, then SIGTERM or SIGINT after a drawn delay (in 5 of 8 cycles sent once, otherwise repeated 1..1100 ms later), " +
 	"optionally with traffic (data and announcements of fresh template ids) continuing through the shutdown window, or with single late datagrams 0.9..2.1 s after the signal following a quiet period; in a quarter of the later cycles an instance is first started while one of its UDP ports is held by another process (and signalled 1.2 s later if still there); a final verification restart follows the last cycle; " +
 	"oracle per cycle = exit status 0 within 6 s of the signal, stderr free of panic / fatal error / concurrent map, both cache files exist, load and decode data for every acknowledged (exporter,id) to the reference decode, " +
 	"and after the restart data sent WITHOUT templates for every acknowledged (exporter,id) is published with the reference payload; " +
@@ -138,6 +138,30 @@ func genC15(t *rapid.T) c15Case {
 				}
 			}
 		}
+		retouch := false
+		if i > 0 && len(cy.Redefine) == 0 && rapid.IntRange(0, 3).Draw(t, "retouch") == 0 {
+			// a quiet life: nothing new is announced, one known template is re-announced with a single specifier changed
+			// (a scope field if it has any); what is saved at the end of such a life differs from what was loaded in
+			// that one specifier only
+			var known []c15Key
+			for _, prev := range c.Cycles {
+				known = append(known, prev.NewKeys...)
+			}
+			if len(known) > 0 {
+				ki := rapid.IntRange(0, len(known)-1).Draw(t, "retouchkey")
+				for j := 0; j < len(known); j++ {
+					if len(known[(ki+j)%len(known)].Tpl.Scope) > 0 {
+						ki = (ki + j) % len(known)
+						break
+					}
+				}
+				k := known[ki]
+				if ntp, ok := wire.RetouchTemplate(&k.Tpl, true, rapid.IntRange(0, 1023).Draw(t, "retoucha")); ok {
+					cy.Redefine = []c15Key{{Proto: k.Proto, Exp: k.Exp, Tpl: ntp, Recs: k.Recs}}
+					nk, retouch = 0, true
+				}
+			}
+		}
 		for k := 0; k < nk; k++ {
 			cy.NewKeys = append(cy.NewKeys, genKey())
 		}
@@ -148,7 +172,7 @@ func genC15(t *rapid.T) c15Case {
 		cy.Burst = rapid.SampledFrom([]int{0, 5, 50, 300}).Draw(t, "burst")
 		cy.Signal = rapid.SampledFrom([]string{"TERM", "TERM", "INT"}).Draw(t, "signal")
 		cy.DelayMS = rapid.SampledFrom([]int{0, 0, 1, 10, 100}).Draw(t, "delay")
-		cy.Inflight = rapid.IntRange(0, 2).Draw(t, "inflight") > 0
+		cy.Inflight = rapid.IntRange(0, 2).Draw(t, "inflight") > 0 && !retouch
 		if cy.Inflight {
 			nf := rapid.IntRange(0, 12).Draw(t, "nfresh")
 			for k := 0; k < nf; k++ {
@@ -360,7 +384,8 @@ func runC15(c *c15Case) (v verdict, sig string, err error) {
 		for ki := range cy.Redefine {
 			toAnnounce = append(toAnnounce, &cy.Redefine[ki])
 		}
-		v.label(len(cy.Redefine) > 0, "templates-redefined-smaller")
+		v.label(len(cy.Redefine) > 0 && len(cy.Redefine[0].Tpl.Scope) == 0 && len(cy.Redefine[0].Tpl.Fields) == 1 && cy.Redefine[0].Tpl.Fields[0].ID == 4, "templates-redefined-smaller")
+		v.label(len(cy.Redefine) == 1 && len(cy.NewKeys) == 0 && !cy.Inflight, "quiet-life-with-one-specifier-changed")
 		for _, k := range toAnnounce {
 			ann := r.announceMsg(k)
 			if _, perr := r.replica[k.Proto].decodeFlow(r.exps[k.Exp].addr, ann); perr != nil {
